@@ -268,6 +268,8 @@ class CallMixin:
                         return c.app("undec", [STR], INT, [v])
                     raise RaiseEx("ValueError", None, n.lineno)
                 return self.opaque("int", INT)
+            if nm == "defaultdict":
+                return EmptyV("dict")
             if nm in ("set", "list", "tuple", "dict", "frozenset") and len(n.args) <= 1:
                 if not n.args:
                     return self.empty_container(nm, n)
@@ -339,6 +341,10 @@ class CallMixin:
         recv = self.ev(f.value, st, old)
         if not isinstance(recv, T):
             return None
+        if "as_map" in self.m.hooks:
+            mm = self.m.hooks["as_map"](self, recv)
+            if mm is not None:
+                recv = mm
         s = recv.sort
         if isinstance(s, tuple) and s[0] == "Opt" and isinstance(s[1], tuple):
             recv = unopt(recv)
@@ -358,6 +364,19 @@ class CallMixin:
                 return e
             if at in ("items", "keys", "values"):
                 return ("mapview", at, recv)
+            if at == "update" and len(n.args) == 1 and not n.keywords:
+                x = self.ev(n.args[0], st, old)
+                if isinstance(x, T) and x.sort != s and "as_map" in self.m.hooks:
+                    x = self.m.hooks["as_map"](self, x) or x
+                if isinstance(x, EmptyV):
+                    return T(NONE, "none")
+                if isinstance(x, T) and x.sort == s:
+                    r = self.opaque("upd", s)
+                    q = "|q_u|"
+                    e2 = f"(select {x.s} {q})"
+                    st.pc.append(f"(forall (({q} {sort_smt(s[1])})) (= (select {r.s} {q}) (ite {is_some(T(('Opt', s[2]), e2)).s} {e2} (select {recv.s} {q}))))")
+                    if self.store_back(f.value, r, st):
+                        return T(NONE, "none")
             if at == "copy":
                 return recv
             if at in ("pop",) and n.args:
@@ -436,6 +455,11 @@ class CallMixin:
             return True
         if isinstance(target, ast.Name) and target.id in st.ghost:
             st.ghost[target.id] = val
+            return True
+        if isinstance(target, ast.Subscript):
+            t2 = ast.Subscript(value=target.value, slice=target.slice, ctx=ast.Store())
+            ast.copy_location(t2, target)
+            self.assign(t2, val, st)
             return True
         if isinstance(target, ast.Attribute) and target.attr in self.m.fields:
             o = self.ev(target.value, st, None)
@@ -538,6 +562,10 @@ class CallMixin:
         self.events.append((q, cnt, n.lineno, deferred))
         if deferred:
             return None
+        if k.get("pure"):
+            # side-effect free function specified by a spec function: result == pure(args)
+            asorts = [ps for _, ps in params]
+            return c.app(k["pure"], asorts, k["returns"], [b.env[pn] for pn, _ in params], k.get("returns_cls"))
         # havoc the frame
         oldb = b.clone()
         oldb.heap, oldb.ghost = dict(st.heap), dict(st.ghost)
